@@ -44,3 +44,78 @@ package server
 //@ modifies ghost(ws.c.$writes), ghost(ws.c.$wType), ghost(ws.c.$wMsg)
 //@ ensures [C18] err == nil ==> n == len(p) && ws.c.$writes == old(ws.c.$writes) + 1 && ws.c.$wType == 2 && ws.c.$wMsg == p
 //@ ensures [C18] err != nil ==> n == 0 && ws.c.$writes == old(ws.c.$writes)
+
+// ---------------------------------------------------------------------------
+// C03 — packet id limiter (server/limiter.go)
+//
+// locked(p, id): id is marked in use. limOK is the monitor invariant of p.cond.L.
+// at(lock, e) is e evaluated right after the lock was (re)acquired for the last time.
+
+//@ spec func locked(p *packetIDLimiter, id uint16) bool = bit(p.lockedPid, id)
+//@ spec func wasLocked(p *packetIDLimiter, id uint16) bool = at(lock, locked(p, id))
+//@ spec func limOK(p *packetIDLimiter) bool = p.lockedPid != nil && bitmapOK(p.lockedPid) && p.lockedPid.size == 65535 && 1 <= p.freePid && p.freePid <= 65535
+//@ spec func limFixed(p *packetIDLimiter) bool = p != nil && p.cond != nil && p.cond.L != nil && p.lockedPid != nil
+
+//@ func newPacketIDLimiter
+//@ props C03
+//@ ensures [C03] result != nil && isfresh(result) && limFixed(result) && limOK(result)
+//@ ensures [C03] result.used == 0 && result.limit == limit && result.exit == false
+//@ ensures [C03] forall o uint16 :: !locked(result, o)
+
+//@ func (*packetIDLimiter).pollPacketIDs
+//@ props C03
+//@ requires [C03] limFixed(p)
+//@ monitor p.cond.L protects p.used, p.freePid, p.exit, elems(p.lockedPid.vals) with invariant limOK(p)
+//@ modifies p.used, p.freePid, p.exit, elems(p.lockedPid.vals)
+//@ ensures [C03] at(lock, p.exit) ==> id == nil
+//@ ensures [C03] !at(lock, p.exit) ==> len(id) == min(int(max), int(p.limit) - int(at(lock, p.used))) && at(lock, p.used) < p.limit
+//@ ensures [C03] int(p.used) == int(at(lock, p.used)) + len(id) && (len(id) > 0 ==> p.used <= p.limit)
+//@ ensures [C03] forall i int :: 0 <= i && i < len(id) ==> id[i] != 0 && locked(p, id[i]) && !wasLocked(p, id[i])
+//@ ensures [C03] forall i int, j int :: 0 <= i && i < j && j < len(id) ==> id[i] != id[j]
+//@ ensures [C03] forall o uint16 :: at(lock, locked(p, o)) ==> locked(p, o)
+//@ loop 1 invariant limOK(p)
+//@ loop 2 invariant limOK(p) && !at(lock, p.exit) && at(lock, p.used) < p.limit
+//@ loop 2 invariant n == min(max, p.limit - at(lock, p.used))
+//@ loop 2 invariant j <= n && len(id) == int(j) && int(p.used) == int(at(lock, p.used)) + int(j)
+//@ loop 2 invariant forall i int :: 0 <= i && i < len(id) ==> id[i] != 0 && locked(p, id[i]) && !wasLocked(p, id[i])
+//@ loop 2 invariant forall i int, k int :: 0 <= i && i < k && k < len(id) ==> id[i] != id[k]
+//@ loop 2 invariant forall o uint16 :: at(lock, locked(p, o)) ==> locked(p, o)
+//@ loop 2 invariant id == nil || isfresh(id)
+//@ loop 3 invariant limOK(p)
+
+//@ func (*packetIDLimiter).releaseLocked
+//@ props C03
+//@ requires [C03] limFixed(p) && limOK(p)
+//@ modifies p.used, elems(p.lockedPid.vals)
+//@ ensures [C03] limOK(p)
+//@ ensures [C03] forall o uint16 :: locked(p, o) == (o != id && old(locked(p, o)))
+//@ ensures [C03] !old(locked(p, id)) ==> p.used == old(p.used)
+//@ ensures [C03] old(locked(p, id)) && old(p.used) > 0 ==> p.used == old(p.used) - 1
+//@ ensures [C03] p.freePid == old(p.freePid)
+
+//@ func (*packetIDLimiter).release
+//@ props C03
+//@ requires [C03] limFixed(p)
+//@ monitor p.cond.L protects p.used, p.freePid, p.exit, elems(p.lockedPid.vals) with invariant limOK(p)
+//@ modifies p.used, p.freePid, p.exit, elems(p.lockedPid.vals)
+//@ ensures [C03] !locked(p, id)
+//@ ensures [C03] forall o uint16 :: locked(p, o) == (o != id && at(lock, locked(p, o)))
+
+//@ func (*packetIDLimiter).batchRelease
+//@ props C03
+//@ requires [C03] limFixed(p)
+//@ monitor p.cond.L protects p.used, p.freePid, p.exit, elems(p.lockedPid.vals) with invariant limOK(p)
+//@ modifies p.used, p.freePid, p.exit, elems(p.lockedPid.vals)
+//@ ensures [C03] forall i int :: 0 <= i && i < len(id) ==> !locked(p, id[i])
+//@ ensures [C03] forall o uint16 :: locked(p, o) ==> at(lock, locked(p, o))
+//@ loop 1 invariant limOK(p) && -1 <= $k && $k < len(id)
+//@ loop 1 invariant forall i int :: 0 <= i && i <= $k ==> !locked(p, id[i])
+//@ loop 1 invariant forall o uint16 :: locked(p, o) ==> at(lock, locked(p, o))
+
+//@ func (*packetIDLimiter).markUsedLocked
+//@ props C03
+//@ requires [C03] limFixed(p) && limOK(p)
+//@ modifies p.used, elems(p.lockedPid.vals)
+//@ ensures [C03] limOK(p)
+//@ ensures [C03] forall o uint16 :: locked(p, o) == (o == id || old(locked(p, o)))
+//@ ensures [C03] p.freePid == old(p.freePid)
